@@ -75,6 +75,9 @@ pub fn jfs(xs: &[Float]) -> String {
     format!("[{}]", v.join(","))
 }
 pub fn sfs(xs: &[Float]) -> String {
+    // an empty list carries its element type: a shard whose every case has an empty list here would otherwise leave the
+    // implicit argument of `nil` unresolved in `Definition cases := ...` (seen with a one-case shard, seed 4)
+    if xs.is_empty() { return "(@nil spec_float)".to_string(); }
     let v: Vec<String> = xs.iter().map(|x| sf(*x)).collect();
     format!("[{}]", v.join("; "))
 }
